@@ -41,7 +41,7 @@ Print Assumptions C15_src_capacity_checks.
 
 Theorem C15_src_argument_checks : forall m n,
   src_cnt_label_too_long m n = Ok (n >? MAXLAB) /\ src_cnt_key_too_long m n = Ok (n >? MAXKEY).
-Proof. intros. split; reflexivity. Qed.
+Proof. intros. exact (conj (src_cnt_label_too_long_eq m n) (src_cnt_key_too_long_eq m n)). Qed.
 Print Assumptions C15_src_argument_checks.
 
 (* free stamps clock() + timeout (u64) at the deadline field; a freed id is reusable once now >= deadline (as i64) *)
